@@ -3241,7 +3241,7 @@ class SSHConnection(SSHPacketHandler, asyncio.Protocol):
 
             self.logger.info('  Forwarding TCP connection to %s',
                              (dest_host, dest_port))
-        except (OSError, OverflowError) as exc:
+        except (OSError, OverflowError, UnicodeError) as exc:
             raise ChannelOpenError(OPEN_CONNECT_FAILED, str(exc)) from None
 
         return SSHForwarder(cast(SSHForwarder, peer))
